@@ -6,9 +6,11 @@ import U3.Lemmas.Url
 Theorems about `U3.Url.parseUrlWith` (the model of `parse_url`, `idna.encode` a parameter) and its
 components.  `NormalForm A s` = "every character of `s` is in the allowed set `A` or part of an
 upper-case valid escape" (`U3.Lemmas.Url`).  Statements that could only be proved in part carry the
-suffix `_partial`; the full statement and what is missing is in the comment above them.  The four
-classes of inputs on which the unchanged tree violates the property (known findings, see
-`notes/C14.md`) are pinned by the `…_witness` theorems, proved by evaluating the model.
+suffix `_partial`; the full statement and what is missing is in the comment above them.  The three
+classes of inputs on which the tree still violates the property (known findings, see
+`notes/C14.md`) are pinned by the `…_witness` theorems, proved by evaluating the model; the repaired
+finding `rfc-mismatch:dollar-newline` (`_HOST_PORT_RE` / `_IPV6_ADDRZ_RE` now end in `\Z`) is pinned
+by the positive `C14_dollar_newline_rejected`.
 -/
 namespace U3.Props
 open U3 U3.Url
@@ -202,22 +204,25 @@ finds an authority, urllib3's host, port and userinfo are those of the reference
 (normalised the same way): the host is `_normalize_host` of the reference host text (`None` and `""`
 identified), the port is the numeric value of the reference port text — which consists of digits
 only —, the userinfo is the text before the last `@`, percent-encoded.  So no input makes the model
-address a host other than the one the reference parser sees.
+address a host other than the one the reference parser sees.  Moreover the reference authority of an
+accepted input is always well formed (an IP-literal is closed and followed by nothing or `:port`).
 
-Hypotheses = exactly the complement of the two known findings: the RFC scheme (if any) contains no
-`.` (`rfc-mismatch:dotted-scheme`), and the reference authority is well formed with no `"\n"` at
-the end of the port text (`rfc-mismatch:dollar-newline`; `"[::1]\n"` is `wellFormed = false`).
-Both hypotheses are decidable predicates of the *reference reading* of the input. -/
+Hypothesis = exactly the complement of the one remaining `rfc-mismatch:*` finding: the RFC scheme (if
+any) contains no `.` (`rfc-mismatch:dotted-scheme`); it is a decidable predicate of the *reference
+reading* of the input.  Until the `\Z` repair of `_HOST_PORT_RE` the theorem also needed "the
+reference authority is well formed, with no `"\n"` at the end of the port text"
+(`rfc-mismatch:dollar-newline`); both hypotheses are gone: the port text is now proved to be all
+digits outright and well-formedness has become a conclusion. -/
 theorem C14_agrees_with_rfc (idna : Str → Option Str) (s : Str) (u : Url) (r : RefAuth)
     (h : parseUrlWith idna s = .ok u) (hr : refAuthority s = some r)
-    (hdot : ∀ sch, refScheme s = some sch → 46 ∉ sch)
-    (hwf : r.wellFormed = true) (hnl : ∀ p, r.port = some p → p.getLast? ≠ some 10) :
+    (hdot : ∀ sch, refScheme s = some sch → 46 ∉ sch) :
     normalizeHost idna (some r.host) u.scheme = .ok (some (u.host.getD [])) ∧
     (u.host = none → r.host = []) ∧
     u.port = refPortValue r.port ∧
     (∀ p, r.port = some p → p.all isDigitC = true) ∧
-    u.auth = refAuthValue (Gen.normalizableSchemes.contains u.scheme) r.userinfo :=
-  agrees_with_rfc idna s u r h hr hdot hwf hnl
+    u.auth = refAuthValue (Gen.normalizableSchemes.contains u.scheme) r.userinfo ∧
+    r.wellFormed = true :=
+  agrees_with_rfc idna s u r h hr hdot
 
 -- non-vacuity: "hTTp://a@b@C:080\d" satisfies every hypothesis; the reading is userinfo "a@b",
 -- host "C", port text "080"; urllib3 has auth "a%40b", host "c", port 80
@@ -232,11 +237,19 @@ example : parseUrl [104, 84, 84, 112, 58, 47, 47, 97, 64, 98, 64, 67, 58, 48, 56
 example : refAuthOfHier [47, 47, 97, 64, 98, 64, 99, 92, 100] = some ⟨some [97, 64, 98], [99], none, true⟩ := by
   decide
 
-/-- known finding `rfc-mismatch:dollar-newline`: "http://h:80\n" parses with port 80 although the
-port text of the RFC reading is "80\n" (Python's `$` matches before a final newline) -/
-theorem C14_dollar_newline_witness :
-    (parseUrl [104, 116, 116, 112, 58, 47, 47, 104, 58, 56, 48, 10]).toOption.map (·.port) = some (some 80) ∧
-    (refAuthority [104, 116, 116, 112, 58, 47, 47, 104, 58, 56, 48, 10]).map (·.port) = some (some [56, 48, 10]) := by
+/-- repaired finding `rfc-mismatch:dollar-newline` (the regexes end in `\Z` now): "http://h:80\n",
+whose RFC reading has the port text "80\n", is rejected with `LocationParseError` (it used to parse
+with port 80); so are "http://[::1]\n" (junk after the IP-literal; it used to parse with host
+"[::1]") and "http://h:\n/x".  A newline that is part of a reg-name is no concern of the anchor:
+"http://h\n" still parses, and the host keeps the newline exactly as the RFC reading has it. -/
+theorem C14_dollar_newline_rejected :
+    parseUrl [104, 116, 116, 112, 58, 47, 47, 104, 58, 56, 48, 10] = .error .locationParseError ∧
+    (refAuthority [104, 116, 116, 112, 58, 47, 47, 104, 58, 56, 48, 10]).map (·.port) = some (some [56, 48, 10]) ∧
+    parseUrl [104, 116, 116, 112, 58, 47, 47, 91, 58, 58, 49, 93, 10] = .error .locationParseError ∧
+    (refAuthority [104, 116, 116, 112, 58, 47, 47, 91, 58, 58, 49, 93, 10]).map (·.wellFormed) = some false ∧
+    parseUrl [104, 116, 116, 112, 58, 47, 47, 104, 58, 10, 47, 120] = .error .locationParseError ∧
+    (parseUrl [104, 116, 116, 112, 58, 47, 47, 104, 10]).toOption.map (·.host) = some (some [104, 10]) ∧
+    (refAuthority [104, 116, 116, 112, 58, 47, 47, 104, 10]).map (·.host) = some [104, 10] := by
   decide
 
 /-- known finding `rfc-mismatch:dotted-scheme`: "a.b://h/" — RFC 3986 reads scheme "a.b", host "h";
@@ -250,11 +263,11 @@ theorem C14_dotted_scheme_witness :
 
 /-
 Full statement (DESIGN App. E): `parseUrl s = .ok u → u.scheme ∈ [some http, some https] →
-parseUrl (render u) = .ok u`.  It is FALSE on the unchanged tree (known findings
-`reparse-mismatch:empty-host` and `reparse-mismatch:zone-25-prefix`, witnesses below), so it can only
-hold under the side conditions `u.host ≠ some []` (or a port / userinfo is present) and "the zone id
-of an IPv6 host does not start with `25`".  The composed proof under these side conditions is not
-done.  Proved: the component fixed-point lemmas the round trip rests on — a normal-form component
+parseUrl (render u) = .ok u`.  It is FALSE on the tree (known finding
+`reparse-mismatch:zone-25-prefix`, witness below; the second counterexample class,
+`reparse-mismatch:empty-host`, is repaired — `C14_reparse_empty_host_ok`), so it can only hold under
+the side condition "the zone id of an IPv6 host does not start with `25`".  The composed proof under
+this side condition is not done.  Proved: the component fixed-point lemmas the round trip rests on — a normal-form component
 is left alone by the encoder (`C14_encode_keeps_normal`), the dot-segment remover is idempotent
 (`C14_dotseg_idempotent`), and, below, host normalisation is idempotent for hosts that are not
 IPv6 literals with a zone (`C14_host_idempotent_partial`) — and, on concrete inputs, the round trip
@@ -275,12 +288,50 @@ theorem C14_reparse_example :
   subst hu
   exact ⟨rfl, by decide⟩
 
-/-- known finding `reparse-mismatch:empty-host`: "http://:" has host "" and renders as "http://",
-which re-parses to host `None` -/
-theorem C14_reparse_empty_host_witness :
-    parseUrl [104, 116, 116, 112, 58, 47, 47, 58] = .ok ⟨some http, none, some [], none, none, none, none⟩ ∧
-    Url.render ⟨some http, none, some [], none, none, none, none⟩ = [104, 116, 116, 112, 58, 47, 47] ∧
-    parseUrl [104, 116, 116, 112, 58, 47, 47] = .ok ⟨some http, none, none, none, none, none, none⟩ := by
+/-- repaired finding `reparse-mismatch:empty-host`: "http://:" (likewise "http://@", "http://@:" and
+"http://:/x") used to have host "" and render as "http://", which re-parses to host `None`.  An
+authority made of delimiters only is now reported like the empty authority (host `None`), so the
+round trip closes; an empty host *with* a port or userinfo keeps host "" and round-trips as before
+("http://:80", "http://u@"). -/
+theorem C14_reparse_empty_host_ok :
+    parseUrl [104, 116, 116, 112, 58, 47, 47, 58] = .ok ⟨some http, none, none, none, none, none, none⟩ ∧
+    Url.render ⟨some http, none, none, none, none, none, none⟩ = [104, 116, 116, 112, 58, 47, 47] ∧
+    parseUrl [104, 116, 116, 112, 58, 47, 47] = .ok ⟨some http, none, none, none, none, none, none⟩ ∧
+    parseUrl [104, 116, 116, 112, 58, 47, 47, 64] = .ok ⟨some http, none, none, none, none, none, none⟩ ∧
+    parseUrl [104, 116, 116, 112, 58, 47, 47, 64, 58] = .ok ⟨some http, none, none, none, none, none, none⟩ ∧
+    (∀ u, parseUrl [104, 116, 116, 112, 58, 47, 47, 58, 47, 120] = .ok u → parseUrl u.render = .ok u) ∧
+    parseUrl [104, 116, 116, 112, 58, 47, 47, 58, 56, 48] = .ok ⟨some http, none, some [], some 80, none, none, none⟩ ∧
+    parseUrl (Url.render ⟨some http, none, some [], some 80, none, none, none⟩) =
+      .ok ⟨some http, none, some [], some 80, none, none, none⟩ ∧
+    parseUrl [104, 116, 116, 112, 58, 47, 47, 117, 64] = .ok ⟨some http, some [117], some [], none, none, none, none⟩ ∧
+    parseUrl (Url.render ⟨some http, some [117], some [], none, none, none, none⟩) =
+      .ok ⟨some http, some [117], some [], none, none, none, none⟩ := by
+  refine ⟨by decide, by decide, by decide, by decide, by decide, ?_, by decide, by decide, by decide, by decide⟩
+  intro u hu
+  have : parseUrl [104, 116, 116, 112, 58, 47, 47, 58, 47, 120] =
+      .ok ⟨some http, none, none, none, some [47, 120], none, none⟩ := by decide
+  rw [this] at hu
+  simp only [Except.ok.injEq] at hu
+  subst hu
+  decide
+
+/-- The repair of `reparse-mismatch:empty-host` in general form: for **every** input, when
+`parse_url` reports the host `""` it also reports a port or a userinfo — so the string form
+(`…//userinfo@`, `…//:port`) shows the empty host and the re-parse finds it again; an empty host with
+nothing around it is reported as `None`, like the empty authority.  `hc` is the contract of the
+uninterpreted `idna.encode`: it never answers with an empty label (needed because `_normalize_host`
+joins the encoded labels: a non-empty host must not normalise to `""`). -/
+theorem C14_empty_host_has_port_or_userinfo (idna : Str → Option Str)
+    (hc : ∀ l r, idna l = some r → r ≠ []) (s : Str) (u : Url)
+    (h : parseUrlWith idna s = .ok u) (hh : u.host = some []) :
+    u.auth.isSome = true ∨ u.port.isSome = true :=
+  empty_host_has_port_or_userinfo idna hc s u h hh
+
+-- non-vacuity: the contract holds for the IDNA-free parser, and "http://:80" / "//u@" do have host ""
+example : ∀ l r, (fun _ => none : Str → Option Str) l = some r → r ≠ [] := by simp
+example : (parseUrl [104, 116, 116, 112, 58, 47, 47, 58, 56, 48]).toOption.map (fun u => (u.host, u.port)) =
+    some (some [], some 80) := by decide
+example : (parseUrl [47, 47, 117, 64]).toOption.map (fun u => (u.host, u.auth)) = some (some [], some [117]) := by
   decide
 
 /-- known finding `reparse-mismatch:zone-25-prefix`: "http://[::1%2525a]" has host "[::1%25a]"; its
